@@ -52,12 +52,12 @@ Proof. unfold wp. destruct (run c m). auto. Qed.
 
 (* memory after the events *)
 Definition m_alloc_fail (m : mem) (n : N) : mem :=
-  {| heap := heap m; statics := statics m; orc := orc m; nreq := nreq m + 1; log := EAlloc n None :: log m |}.
+  {| heap := heap m; statics := statics m; orc := orc m; nreq := nreq m + 1; log := EAlloc n None :: log m; ext := ext m |}.
 Definition fresh_buf (n : N) : buf :=
   {| live := true; asize := n; count := 0; cap := 0; data := repeat POISON (N.to_nat (n - HDR)) |}.
 Definition m_alloc_ok (m : mem) (n : N) : mem :=
   {| heap := heap m ++ [fresh_buf n]; statics := statics m; orc := orc m; nreq := nreq m + 1;
-     log := EAlloc n (Some (length (heap m))) :: log m |}.
+     log := EAlloc n (Some (length (heap m))) :: log m; ext := ext m |}.
 
 Lemma wp_alloc {R} n (k : option bufid -> cmd R) (Q : out R -> mem -> Prop) m :
   (orc m (nreq m) n = true -> wp (k None) Q (m_alloc_fail m n)) ->
@@ -78,12 +78,14 @@ Section Buf.
     wp k Q (set_buf m b {| live := true; asize := asize x; count := 1; cap := c; data := data x |} (EHdrInit b c)) ->
     wp (HdrInit b c k) Q m.
   Proof. unfold wp. cbn [run]. rewrite Hb, Hl. auto. Qed.
-  Lemma wp_load o (k : N -> cmd R) Q : wp (k (count x)) Q (logm m (ELoad b o (count x))) -> wp (Load b o k) Q m.
+  Lemma wp_load o (k : N -> cmd R) Q :
+    wp (k (count x + ext_now m)) Q (logm m (ELoad b o (count x + ext_now m))) -> wp (Load b o k) Q m.
   Proof. unfold wp. cbn [run]. rewrite Hb, Hl. auto. Qed.
   Lemma wp_rmw (add : bool) o (k : N -> cmd R) Q :
-    wp (k (count x)) Q (set_buf m b {| live := true; asize := asize x;
-                                      count := if add then count x + 1 else count x - 1;
-                                      cap := cap x; data := data x |} (ERmw b add o (count x))) ->
+    wp (k (count x + ext_now m)) Q
+       (set_buf m b {| live := rmw_live add (count x) (ext_now m); asize := asize x;
+                       count := if add then count x + 1 else count x - 1;
+                       cap := cap x; data := data x |} (ERmw b add o (count x + ext_now m))) ->
     wp (Rmw b add o k) Q m.
   Proof. unfold wp. cbn [run]. rewrite Hb, Hl. auto. Qed.
   Lemma wp_dealloc n (k : cmd R) Q :
@@ -121,12 +123,12 @@ Section Buf.
   Qed.
 
   Definition m_realloc_fail (old new : N) : mem :=
-    {| heap := heap m; statics := statics m; orc := orc m; nreq := nreq m + 1; log := ERealloc b old new false :: log m |}.
+    {| heap := heap m; statics := statics m; orc := orc m; nreq := nreq m + 1; log := ERealloc b old new false :: log m; ext := ext m |}.
   Definition resize (d : list N) (n : nat) : list N := firstn n d ++ repeat POISON (n - length d).
   Definition m_realloc_ok (old new : N) : mem :=
     {| heap := upd (heap m) b {| live := true; asize := new; count := count x; cap := cap x;
                                  data := resize (data x) (N.to_nat (new - HDR)) |};
-       statics := statics m; orc := orc m; nreq := nreq m + 1; log := ERealloc b old new true :: log m |}.
+       statics := statics m; orc := orc m; nreq := nreq m + 1; log := ERealloc b old new true :: log m; ext := ext m |}.
   Lemma wp_realloc old new (k : bool -> cmd R) Q :
     old = asize x ->
     (orc m (nreq m) new = true -> wp (k false) Q (m_realloc_fail old new)) ->
